@@ -32,6 +32,63 @@ func keep(o osm.Object, flags int) bool {
 	return false
 }
 
+// model: what a scanner whose reader started at offset base of the file must
+// report while object i (of the whole filtered sequence) is the most recent one.
+type model struct {
+	enc     *pbfgen.Encoded
+	header  bool
+	want    []osm.Object
+	blockOf []int
+}
+
+func newModel(file *pbfgen.File, enc *pbfgen.Encoded, flags int, header bool) *model {
+	m := &model{enc: enc, header: header}
+	for bi := range file.Blocks {
+		for _, o := range file.Blocks[bi].Expected() {
+			if keep(o, flags) {
+				m.want = append(m.want, o)
+				m.blockOf = append(m.blockOf, bi)
+			}
+		}
+	}
+	return m
+}
+
+// blockStart: base is 0 or the start of a data block.
+func (m *model) blockStart(base int64) bool {
+	for _, s := range m.enc.Starts[:len(m.enc.Starts)-1] {
+		if s == base {
+			return true
+		}
+	}
+	return false
+}
+
+// from: index of the first object of a scan started at base.
+func (m *model) from(base int64) int {
+	for i := range m.want {
+		if m.enc.DataStarts[m.blockOf[i]] >= base {
+			return i
+		}
+	}
+	return len(m.want)
+}
+
+// offsets relative to base: F = start of the object's block, P = start of the
+// file block before it when the scanner has seen it, else 0.
+func (m *model) offsets(i int, base int64) (f, p int64) {
+	b := m.blockOf[i]
+	f = m.enc.DataStarts[b] - base
+	fi := b
+	if m.header {
+		fi++
+	}
+	if fi > 0 && m.enc.Starts[fi-1] >= base {
+		p = m.enc.Starts[fi-1] - base
+	}
+	return
+}
+
 func scenario(procs, blocks, flags int, header bool, bound int) vexplore.Scenario {
 	file := pbfscen.File(blocks, header)
 	enc := file.Encode()
@@ -133,6 +190,7 @@ func resumeScenario(procs, blocks, flags int, header bool, k, bound int) vexplor
 	if k > len(want) {
 		k = len(want)
 	}
+	mdl := newModel(file, enc, flags, header)
 	name := fmt.Sprintf("resume-same-reader procs=%d blocks=%d skip=%03b header=%v k=%d", procs, blocks, flags, header, k)
 	return vexplore.Scenario{Name: name, Family: fmt.Sprintf("resume-same-reader procs=%d D=%d", procs, bound), Bound: bound, MaxSteps: 100000,
 		New: func() (func(), func(*vsched.Outcome) ([]vexplore.Finding, string, bool)) {
@@ -159,9 +217,18 @@ func resumeScenario(procs, blocks, flags int, header bool, k, bound int) vexplor
 				rd.Pos = int(off) // Seek(off, io.SeekStart) on the shared reader
 				s2 := osmpbf.New(ctx, rd, procs)
 				setup(s2)
+				from2, judge := mdl.from(off), mdl.blockStart(off)
 				for s2.Scan() {
 					got = append(got, s2.Object())
 					resumed++
+					// the resumed scanner reports both offsets relative to where its reader
+					// started (judged when off is a block start; else off itself is reported)
+					if i := from2 + resumed - 1; judge && i < len(want) && len(problems) == 0 {
+						wf, wp := mdl.offsets(i, off)
+						if f, p := s2.FullyScannedBytes(), s2.PreviousFullyScannedBytes(); f != wf || p != wp {
+							problems = append(problems, vexplore.Finding{Key: "schedule/resumed-offsets", Msg: fmt.Sprintf("scanner resumed at %d, after its object %d (block %d): FullyScannedBytes=%d PreviousFullyScannedBytes=%d, want %d %d", off, resumed-1, blockOf[i], f, p, wf, wp)})
+						}
+					}
 				}
 				scanErr = s2.Err()
 				s2.Close()
@@ -196,9 +263,105 @@ func resumeScenario(procs, blocks, flags int, header bool, k, bound int) vexplor
 		}}
 }
 
+// chainScenario: a chain of resumes on THE SAME reader. Scanner 1 stops after
+// stops[0] objects and is closed; the reader is repositioned at the offset it
+// reported; scanner 2 stops after stops[1] objects, reports offsets relative to
+// its own start, is closed; the reader is repositioned at start + reported; ...;
+// the last scanner scans to the end. With hdr every scanner is asked for its
+// Header() before the first Scan and after every Scan. Both offsets are compared
+// with the model after every Scan of every scanner, and every scanner must
+// deliver exactly the objects from the first object of the block it starts at.
+func chainScenario(procs, blocks, flags int, header bool, stops []int, hdr bool, bound int) vexplore.Scenario {
+	file := pbfscen.File(blocks, header)
+	enc := file.Encode()
+	mdl := newModel(file, enc, flags, header)
+	name := fmt.Sprintf("resume-chain procs=%d blocks=%d skip=%03b header=%v stops=%v header-calls=%v", procs, blocks, flags, header, stops, hdr)
+	return vexplore.Scenario{Name: name, Family: fmt.Sprintf("resume-chain procs=%d D=%d", procs, bound), Bound: bound, MaxSteps: 100000,
+		New: func() (func(), func(*vsched.Outcome) ([]vexplore.Finding, string, bool)) {
+			var problems []vexplore.Finding
+			var counts []int
+			bad := func(key, msg string) {
+				if len(problems) == 0 {
+					problems = append(problems, vexplore.Finding{Key: key, Msg: msg})
+				}
+			}
+			main := func() {
+				ctx, cancel := vsched.WithCancel(nil)
+				defer cancel()
+				rd := &pbfscen.Reader{Data: enc.Data, BlockOnly: true}
+				base := int64(0)
+				for st := 0; st <= len(stops) && len(problems) == 0; st++ {
+					if !mdl.blockStart(base) {
+						bad("schedule/chain-offset", fmt.Sprintf("scanner %d would start at %d, which is not the start of a block", st+1, base))
+						return
+					}
+					rd.Pos = int(base) // Seek(base, io.SeekStart) on the shared reader
+					s := osmpbf.New(ctx, rd, procs)
+					s.SkipNodes, s.SkipWays, s.SkipRelations = flags&1 != 0, flags&2 != 0, flags&4 != 0
+					s.FilterNode = func(*osm.Node) bool { vsched.Yield("filter"); return true }
+					askHeader := func(when string) {
+						if !hdr {
+							return
+						}
+						h, err := s.Header()
+						if err != nil || (h != nil) != (base == 0 && header) {
+							bad("schedule/chain-header", fmt.Sprintf("scanner %d (started at %d) Header() %s = %v, %v", st+1, base, when, h, err))
+						}
+					}
+					askHeader("before the first Scan")
+					if hdr {
+						if f, p := s.FullyScannedBytes(), s.PreviousFullyScannedBytes(); f != 0 || p != 0 {
+							bad("schedule/chain-offsets", fmt.Sprintf("scanner %d (started at %d) before its first Scan: FullyScannedBytes=%d PreviousFullyScannedBytes=%d, want 0 0", st+1, base, f, p))
+						}
+					}
+					from, n := mdl.from(base), 0
+					for (st == len(stops) || n < stops[st]) && len(problems) == 0 && s.Scan() {
+						i := from + n
+						n++
+						if i >= len(mdl.want) {
+							bad("schedule/sequence", fmt.Sprintf("scanner %d (started at %d): more objects than the file holds", st+1, base))
+							break
+						}
+						if d := pbfgen.DiffObject(s.Object(), mdl.want[i]); d != "" {
+							bad("schedule/sequence", fmt.Sprintf("scanner %d (started at %d) object %d: %s", st+1, base, n-1, d))
+							break
+						}
+						askHeader(fmt.Sprintf("after object %d", n-1))
+						wf, wp := mdl.offsets(i, base)
+						if f, p := s.FullyScannedBytes(), s.PreviousFullyScannedBytes(); f != wf || p != wp {
+							bad("schedule/chain-offsets", fmt.Sprintf("scanner %d (started at %d) after its object %d (block %d): FullyScannedBytes=%d PreviousFullyScannedBytes=%d, want %d %d", st+1, base, n-1, mdl.blockOf[i], f, p, wf, wp))
+						}
+					}
+					counts = append(counts, n)
+					if st == len(stops) {
+						if err := s.Err(); err != nil {
+							bad("schedule/scan-error", err.Error())
+						} else if from+n != len(mdl.want) && len(problems) == 0 {
+							bad("schedule/sequence", fmt.Sprintf("last scanner (started at %d) delivered %d objects, want %d", base, n, len(mdl.want)-from))
+						}
+					} else if n != stops[st] && len(problems) == 0 {
+						bad("schedule/sequence", fmt.Sprintf("scanner %d (started at %d) delivered %d objects, want %d, err=%v", st+1, base, n, stops[st], s.Err()))
+					}
+					off := s.FullyScannedBytes()
+					s.Close()
+					base += off
+				}
+			}
+			check := func(o *vsched.Outcome) ([]vexplore.Finding, string, bool) {
+				fs := problems
+				if o.Kind != "ok" {
+					fs = append(fs, vexplore.Finding{Key: "schedule/" + o.Kind, Msg: o.Detail})
+					return fs, "", true
+				}
+				return fs, fmt.Sprint(counts), o.Threads > 5
+			}
+			return main, check
+		}}
+}
+
 func main() {
 	kit.Main("C09", "fault_enumeration", func(r *kit.Run) {
-		r.Rule("schedule part: files of 4-5 blocks (dense / ways / relations in rotation) x skip-flag sets that empty whole blocks x with and without header x procs x every schedule with <= D deviations of the instrumented pipeline; both offsets are checked after EVERY Scan; non-vacuous = several decoders and at least one block emptied. Family resume-same-reader: stop after k objects (every k), Close, reposition the SAME reader at FullyScannedBytes, scan with a new scanner: exactly the remaining objects from the first object of that block")
+		r.Rule("schedule part: files of 4-5 blocks (dense / ways / relations in rotation) x skip-flag sets that empty whole blocks x with and without header x procs x every schedule with <= D deviations of the instrumented pipeline; both offsets are checked after EVERY Scan; non-vacuous = several decoders and at least one block emptied. Family resume-same-reader: stop after k objects (every k), Close, reposition the SAME reader at FullyScannedBytes, scan with a new scanner: exactly the remaining objects from the first object of that block, and both offsets of the resumed scanner relative to its start after every Scan. Family resume-chain: the same again from the resumed scanner (second and third resume on the same reader), Header() before and between the Scans")
 		r.Assume("vinst's rewrite preserves behaviour; sequentially consistent scheduler")
 		var scs []vexplore.Scenario
 		type pd struct{ p, d int }
@@ -233,6 +396,36 @@ func main() {
 			for _, k := range []int{1, 3} {
 				scs = append(scs, resumeScenario(1, 3, 0, true, k, 2))
 			}
+		}
+		// second and third resume on the same reader, Header() before and between the
+		// Scans; stops chosen so that each resumed scanner starts at a later block and
+		// stops on the first object of a block (2) or inside one (1, 3)
+		type ch struct {
+			p, d   int
+			blocks int
+			flags  int
+			header bool
+			stops  []int
+			hdr    bool
+		}
+		// (4 blocks of 2 objects: 8 objects with flags 000; 6 with 010, whose block 1 is emptied)
+		// quick: header, an emptied block in front of the first resume point, three scanners
+		// and a third resume on a stream without header with two decoders
+		chains := []ch{{1, 1, 4, 2, true, []int{3, 3}, true}, {2, 1, 4, 2, false, []int{1, 3, 3}, false}}
+		if !r.Quick() {
+			chains = nil
+			chains = []ch{{1, 2, 4, 2, true, []int{3, 3}, true}, {2, 2, 4, 2, false, []int{1, 3, 3}, false}}
+			for _, c := range []pd{{1, 1}, {2, 1}, {3, 1}} {
+				for _, st := range [][]int{{3, 3}, {1, 3, 3}, {2, 0, 3}, {5, 1, 1}, {8, 0}} {
+					chains = append(chains, ch{c.p, c.d, 4, 0, true, st, len(st)%2 == 0})
+				}
+				for _, st := range [][]int{{3, 3}, {1, 3, 3}, {2, 0, 3}, {5, 1, 1}, {6, 0}} {
+					chains = append(chains, ch{c.p, c.d, 4, 2, false, st, len(st)%2 == 1})
+				}
+			}
+		}
+		for _, c := range chains {
+			scs = append(scs, chainScenario(c.p, c.blocks, c.flags, c.header, c.stops, c.hdr, c.d))
 		}
 		e := &vexplore.Explorer{R: r, Scenarios: scs}
 		e.Run(budget)
